@@ -114,6 +114,8 @@ type Interp struct {
 	inputRoots   []*Cell
 	PowApplied   []*ssa.Function
 	loopIter     map[*ssa.BasicBlock]int
+	// TaintedLeafCalls counts (opaque mode) the generated primitives called with a secret-dependent operand
+	TaintedLeafCalls int
 	InitEvents   []Event
 	InitHashes   int
 	pendingBinds []Value
@@ -482,6 +484,9 @@ func ifPos(x *ssa.If) token.Pos {
 func (fr *Frame) branch(blk *ssa.BasicBlock, x *ssa.If, stop *ssa.BasicBlock) (execResult, bool) {
 	it := fr.it
 	cond := it.applyAssume(fr.get(x.Cond))
+	if os.Getenv("SVDEBUGBR") != "" {
+		fmt.Fprintf(os.Stderr, "BRANCH in %s: raw %s\n   applied %s\n", fr.fn.Name(), clip(show(fr.get(x.Cond)), 600), clip(show(cond), 600))
+	}
 	pick := func(b bool) (execResult, bool) {
 		if b {
 			return execResult{last: blk.Succs[0]}, false
@@ -517,6 +522,26 @@ func (fr *Frame) branch(blk *ssa.BasicBlock, x *ssa.If, stop *ssa.BasicBlock) (e
 		// loop-unrolling mode: a data-dependent test in a helper called from the unrolled loop (a read-and-panic
 		// wrapper) is enumerated like the loop's own tests, so that its outcome becomes a path assumption
 		if _, isPred := cond.(PredV); isPred && it.oracle != nil {
+			join = false
+		}
+	}
+	if join && it.oracle != nil && !it.Cfg.JoinAll && it.Cfg.LoopUnroll == 0 && info.inLoop[blk] && !fr.inLoop {
+		// an early exit from a loop (one successor cannot come back to this block: return, break, panic): a path
+		// split like the same test outside a loop, up to 64 times per path
+		if _, isPred := cond.(PredV); isPred && (!info.reach[blk.Succs[0]][blk] || !info.reach[blk.Succs[1]][blk]) {
+			if it.loopIter == nil {
+				it.loopIter = map[*ssa.BasicBlock]int{}
+			}
+			if it.loopIter[blk] < 64 {
+				it.loopIter[blk]++
+				join = false
+			}
+		}
+	}
+	if join && it.oracle != nil && !it.Cfg.JoinAll {
+		// an equality test of an input length with a constant (skip empty chunks, dispatch on a length) inside a
+		// constant-bounded loop: enumerated, so that the length becomes a path constant instead of a merged state
+		if pv, isPred := cond.(PredV); isPred && isLenEquality(pv.P) {
 			join = false
 		}
 	}
@@ -1461,4 +1486,38 @@ func valueAlternatives(t *Term) []*PAtom {
 		alts = append(alts, m.preds[0])
 	}
 	return alts
+}
+
+
+func clip(s string, n int) string {
+	if len(s) > n {
+		return s[:n] + "…"
+	}
+	return s
+}
+
+
+// isLenEquality: p is [len(x) = c] or its negation for an input length symbol.
+func isLenEquality(p *Term) bool {
+	a := p.SinglePred()
+	if a == nil {
+		a = PNot(p).SinglePred()
+	}
+	if a == nil || a.Kind != PEQZ {
+		return false
+	}
+	n := 0
+	for _, m := range a.A.mons {
+		if len(m.preds) > 0 {
+			return false
+		}
+		if m.atom == nil {
+			continue
+		}
+		if m.atom.Kind != ISym || !strings.HasPrefix(BaseSym(m.atom).Name, "len(") {
+			return false
+		}
+		n++
+	}
+	return n == 1
 }
